@@ -33,6 +33,9 @@ var (
 	fRun     = flag.Int("run", -1, "plan: print the plan of this run index")
 	fAtomic  = flag.Bool("atomic", false, "schedsim worker: operation-atomic quanta only")
 	fRaceN   = flag.Int("raceruns", 0, "override number of race-build runs (C14)")
+	fPreFrom = flag.Int("prelude-from", -1, "schedone: first re-execute runs [prelude-from, prelude-to) of -seed in this process")
+	fPreTo   = flag.Int("prelude-to", -1, "schedone: see -prelude-from")
+	fAtomic1 = flag.Int("atomicrun", -1, "schedsim worker: run this one index with operation-atomic quanta")
 )
 
 func infra(f string, a ...interface{}) {
